@@ -1294,7 +1294,8 @@ class Interp:
             return st.alloc(HeapObj("list", None, {}, res))
         # symbolic iterable: keep as a mapped collection
         lam = ("lambda", ast.Lambda(args=ast.arguments(posonlyargs=[], args=[ast.arg(arg=_single_name(g.target, ctx))], kwonlyargs=[], kw_defaults=[], defaults=[]), body=node.elt), None, ctx.fi, dict(st.env))
-        return ("mapobj", lam, itv, "list")
+        # canonical element term: the comprehension body applied to the collection's element symbol
+        return ("mapobj", self.lib.lambda_norm(self, lam, itv, st, ctx, node), itv, "list")
 
     def ev_GeneratorExp(self, node: ast.GeneratorExp, st: State, ctx: Ctx) -> Term:
         return self.ev_ListComp(node, st, ctx)  # type: ignore[arg-type]
